@@ -230,6 +230,9 @@ type Render struct {
 	TrailingBreak bool
 	// Indent: number of blanks sent at the start of every row (inside the box).
 	Indent int
+	// RowFill: number of unused-space codes (8Fh) sent after every row, before the line break: some encoders
+	// pad rows inside the text field; 8Fh is never text.
+	RowFill int
 }
 
 func pad(s string, n int) []byte {
@@ -373,6 +376,9 @@ func EncodeTextField(rows []Row, teletext bool, r Render) ([]byte, error) {
 			return nil, err
 		}
 		o = append(o, b...)
+		for k := 0; k < r.RowFill; k++ {
+			o = append(o, 0x8F)
+		}
 	}
 	if r.TrailingBreak {
 		o = append(o, 0x8A)
